@@ -737,7 +737,6 @@ func (engine *Engine) AddConnNonTLSNonBlocking(conn *Conn, tlsConfig *tls.Config
 		engine.mux.Unlock()
 		return
 	}
-	_ = nbc.SetReadDeadline(time.Now().Add(engine.KeepaliveTime))
 }
 
 // AddConnNonTLSBlocking .
@@ -840,7 +839,6 @@ func (engine *Engine) AddConnTLSNonBlocking(conn *Conn, tlsConfig *tls.Config, d
 		delete(engine.conns, key)
 		engine.mux.Unlock()
 	}
-	_ = nbc.SetReadDeadline(time.Now().Add(engine.KeepaliveTime))
 }
 
 // AddConnTLSBlocking .
@@ -1178,6 +1176,16 @@ func NewEngine(conf Config) *Engine {
 	// }
 
 	// g.OnOpen(engine.ServerOnOpen)
+	// The keep-alive deadline of a server connection is armed when the poller
+	// opens it, i.e. before any of its data can be handled. Armed by the
+	// acceptor after AddConn, it could override the deadline that the handler of
+	// the first request had already set (a websocket upgrade with its own
+	// keep-alive time).
+	g.OnOpen(func(c *nbio.Conn) {
+		if p, ok := c.Session().(*Parser); ok && p != nil && !p.isClient {
+			_ = c.SetReadDeadline(time.Now().Add(engine.KeepaliveTime))
+		}
+	})
 	g.OnClose(func(c *nbio.Conn, err error) {
 		c.MustExecute(func() {
 			switch vt := c.Session().(type) {
